@@ -4,6 +4,7 @@
 //! Exit codes: 0 = property held on everything explored; 1 = violation (VIOLATION line printed);
 //! 2 = machinery failure (never a verdict).
 
+mod c01;
 mod c03;
 mod c17;
 mod common;
@@ -58,6 +59,9 @@ fn main() {
         let mut ctx = Ctx::new(&id, &tier, "model_checking");
         ctx.replay = replay.clone();
         match id.as_str() {
+            "C01" => c01::run(ctx, c01::Mode::C01),
+            "C02" => c01::run(ctx, c01::Mode::C02),
+            "C04" => c01::run(ctx, c01::Mode::C04),
             "C03" => c03::run(ctx, c03::Mode::C03),
             "C16" => c03::run(ctx, c03::Mode::C16),
             "C17" => c17::run(ctx),
